@@ -302,15 +302,67 @@ def def_value(d, name):
     return vals[0] if len(vals) == 1 else None
 
 
-def _snapshot_def(rd, at, name):
-    """The unique `name = <expr>` definition reaching `at`, as (node, value) or (None, None)."""
-    ds = rd.defs(at, name)
-    if len(ds) != 1:
-        return None, None
-    d = next(iter(ds))
+def def_value_rd(rd, d, name):
+    """(node where the value is read, value expr) bound to `name` by definition node d.
+
+    Handles `a, b = x, y` and `a, b = saved` where `saved` has a single tuple-literal definition."""
     v = def_value(d, name)
     if v is not None:
         return d, v
+    if d.kind == 'stmt' and isinstance(d.ast, ast.Assign) and len(d.ast.targets) == 1 and \
+            isinstance(d.ast.targets[0], (ast.Tuple, ast.List)) and isinstance(d.ast.value, ast.Name):
+        idx = [i for i, t in enumerate(d.ast.targets[0].elts) if astx.path(t) == name]
+        ds = rd.defs(d, d.ast.value.id)
+        if len(idx) == 1 and len(ds) == 1:
+            d2 = next(iter(ds))
+            v2 = def_value(d2, d.ast.value.id)
+            if isinstance(v2, (ast.Tuple, ast.List)) and len(v2.elts) == len(d.ast.targets[0].elts) and \
+                    not any(isinstance(e, ast.Starred) for e in v2.elts):
+                return d2, v2.elts[idx[0]]
+    return None, None
+
+
+def dealias(rd, at, e, depth=0):
+    """e with a leading local name replaced by the self.* path it aliases (current = self._seed_vars)."""
+    p = astx.path(e)
+    if p is None or depth > 3:
+        return e
+    base = e
+    while isinstance(base, (ast.Attribute, ast.Subscript)):
+        base = base.value
+    if not isinstance(base, ast.Name) or base.id == 'self':
+        return e
+    ds = rd.defs(at, base.id)
+    if len(ds) != 1:
+        return e
+    d = next(iter(ds))
+    d2, v = def_value_rd(rd, d, base.id)
+    if v is None:
+        return e
+    v = dealias(rd, d2, v, depth + 1)
+    vp = astx.path(v)
+    if vp is None or not vp.startswith('self.') or '[*]' in p or '(' in vp:
+        return e
+    try:
+        return ast.parse(vp + p[len(base.id):], mode='eval').body
+    except SyntaxError:
+        return e
+
+
+def _snapshot_def(rd, at, name):
+    """The unique definition of local `name` reaching `at`, as (node where the state was read, value
+    expr with aliases resolved), following plain copies; (None, None) if not unique."""
+    for _ in range(4):
+        ds = rd.defs(at, name)
+        if len(ds) != 1:
+            return None, None
+        d, v = def_value_rd(rd, next(iter(ds)), name)
+        if v is None:
+            return None, None
+        if isinstance(v, ast.Name):
+            at, name = d, v.id
+            continue
+        return d, dealias(rd, d, v)
     return None, None
 
 
@@ -411,7 +463,7 @@ def ctx(repo, out):
                         got = []
                         for a, dn in (ex or [(None, None), (None, None)]):
                             if dn is not None:
-                                got.append((dn, astx.path(a)))
+                                got.append((dn, astx.path(dealias(rd, dn, a))))
                             elif isinstance(a, ast.Name):
                                 d, v = _snapshot_def(rd, r, a.id)
                                 got.append((d, astx.path(v) if v is not None else None))
@@ -644,6 +696,12 @@ def _filter_sem(fn, A, R, S):
                 if astx.path(st.iter) != systems or not isinstance(st.target, ast.Name) or st.orelse:
                     raise Unknown(st)
                 run(st.body, st.target.id)
+            elif isinstance(st, ast.Assign) and len(st.targets) == 1 and isinstance(st.targets[0], ast.Name) \
+                    and st.targets[0].id not in (systems, relevant, lv):
+                try:
+                    env[st.targets[0].id] = ev(st.value, env, {}, calls(lv))
+                except Unknown as u:
+                    raise Unknown(u.node)
             elif isinstance(st, ast.Expr) and isinstance(st.value, ast.Yield):
                 if lv is not None and astx.path(st.value.value) == lv:
                     yielded[0] = True
@@ -1011,7 +1069,7 @@ def arrays(repo, out):
         crd = cfgm.ReachingDefs(cg)
 
         def seed_dir(node, e, depth=0):
-            d, base = _dir_slot(e)
+            d, base = _dir_slot(dealias(crd, node, e))
             if d and astx.path(base) in ('self._seed_vars', 'self._all_seed_vars'):
                 return d
             if isinstance(e, ast.IfExp) and depth < 4:
@@ -1026,8 +1084,9 @@ def arrays(repo, out):
                 for dn in crd.defs(node, e.id):
                     if dn is cg.entry:
                         dirs.add({'fwd_seeds': 'fwd', 'rev_seeds': 'rev'}.get(e.id))
-                    elif def_value(dn, e.id) is not None:
-                        dirs.add(seed_dir(dn, def_value(dn, e.id), depth + 1))
+                    elif def_value_rd(crd, dn, e.id)[1] is not None:
+                        d2, v2 = def_value_rd(crd, dn, e.id)
+                        dirs.add(seed_dir(d2, v2, depth + 1))
                     else:
                         dirs.add(None)
                 if dirs == {'fwd', 'rev'}:
@@ -2887,6 +2946,16 @@ selftest(
     Twin('twin-jacreset-changed-alias-early-return', SYSTEM, '        old_rel, active = self._old_relevance\n        if (old_rel is not self._relevance) or (active != self._relevance._active):\n            self._old_relevance = (self._relevance, self._relevance._active)\n            return True\n        return False\n', '        relevance = self._relevance\n        old_rel, old_active = self._old_relevance\n        if old_rel is relevance and old_active == relevance._active:\n            return False\n        snapshot = (relevance, relevance._active)\n        self._old_relevance = snapshot\n        return True\n'),
     Mutant('jacreset-changed-alias-ignores-active', SYSTEM, '        old_rel, active = self._old_relevance\n        if (old_rel is not self._relevance) or (active != self._relevance._active):\n            self._old_relevance = (self._relevance, self._relevance._active)\n            return True\n        return False\n', '        relevance = self._relevance\n        old_rel, old_active = self._old_relevance\n        if old_rel is relevance:\n            return False\n        snapshot = (relevance, relevance._active)\n        self._old_relevance = snapshot\n        return True\n', 'C24.jacreset'),
     Mutant('jacreset-changed-alias-or', SYSTEM, '        old_rel, active = self._old_relevance\n        if (old_rel is not self._relevance) or (active != self._relevance._active):\n            self._old_relevance = (self._relevance, self._relevance._active)\n            return True\n        return False\n', '        relevance = self._relevance\n        old_rel, old_active = self._old_relevance\n        if old_rel is relevance or old_active == relevance._active:\n            return False\n        snapshot = (relevance, relevance._active)\n        self._old_relevance = snapshot\n        return True\n', 'C24.jacreset'),
+    # ---- fourth robustness round shapes
+    Twin('twin-filter-temp-swapped-eq', REL, _FILTER_OLD, '        if not self._active:\n            if relevant:\n                yield from systems\n            return\n\n        for subsys in systems:\n            is_rel = self.is_relevant_system(subsys.pathname)\n            if is_rel == relevant:\n                yield subsys\n'),
+    Mutant('filter-temp-inverted', REL, _FILTER_OLD, '        if not self._active:\n            if relevant:\n                yield from systems\n            return\n\n        for subsys in systems:\n            is_rel = self.is_relevant_system(subsys.pathname)\n            if is_rel != relevant:\n                yield subsys\n', 'C24.filter'),
+    Mutant('filter-temp-by-name', REL, _FILTER_OLD, '        if not self._active:\n            if relevant:\n                yield from systems\n            return\n\n        for subsys in systems:\n            is_rel = self.is_relevant_system(subsys.name)\n            if is_rel == relevant:\n                yield subsys\n', 'C24.filter'),
+    Mutant('filter-temp-ignores-flag', REL, _FILTER_OLD, '        if not self._active:\n            if relevant:\n                yield from systems\n            return\n\n        for subsys in systems:\n            is_rel = self.is_relevant_system(subsys.pathname)\n            if is_rel:\n                yield subsys\n', 'C24.filter'),
+    Twin('twin-ctx-seeds-alias-tuple-unpack', REL, _SEEDS_OLD, "        if self._active is False:  # if already inactive from higher level, don't change anything\n            yield\n            return\n\n        current = self._seed_vars\n        saved = (current['fwd'], current['rev'], self._active)\n        self._active = True\n        new_fwd = current['fwd'] if fwd_seeds is None else fwd_seeds\n        new_rev = current['rev'] if rev_seeds is None else rev_seeds\n        self._set_seeds(new_fwd, new_rev)\n        try:\n            yield\n        finally:\n            old_fwd, old_rev, old_active = saved\n            self._set_seeds(old_fwd, old_rev)\n            self._active = old_active\n"),
+    Mutant('ctx-seeds-tuple-unpack-swapped', REL, _SEEDS_OLD, "        if self._active is False:  # if already inactive from higher level, don't change anything\n            yield\n            return\n\n        current = self._seed_vars\n        saved = (current['fwd'], current['rev'], self._active)\n        self._active = True\n        new_fwd = current['fwd'] if fwd_seeds is None else fwd_seeds\n        new_rev = current['rev'] if rev_seeds is None else rev_seeds\n        self._set_seeds(new_fwd, new_rev)\n        try:\n            yield\n        finally:\n            old_rev, old_fwd, old_active = saved\n            self._set_seeds(old_fwd, old_rev)\n            self._active = old_active\n", 'C24.ctx'),
+    Mutant('ctx-seeds-tuple-snapshot-late', REL, _SEEDS_OLD, "        if self._active is False:  # if already inactive from higher level, don't change anything\n            yield\n            return\n\n        current = self._seed_vars\n        self._active = True\n        saved = (current['fwd'], current['rev'], self._active)\n        new_fwd = current['fwd'] if fwd_seeds is None else fwd_seeds\n        new_rev = current['rev'] if rev_seeds is None else rev_seeds\n        self._set_seeds(new_fwd, new_rev)\n        try:\n            yield\n        finally:\n            old_fwd, old_rev, old_active = saved\n            self._set_seeds(old_fwd, old_rev)\n            self._active = old_active\n", 'C24.ctx'),
+    Mutant('ctx-seeds-tuple-active-not-restored', REL, _SEEDS_OLD, "        if self._active is False:  # if already inactive from higher level, don't change anything\n            yield\n            return\n\n        current = self._seed_vars\n        saved = (current['fwd'], current['rev'], self._active)\n        self._active = True\n        new_fwd = current['fwd'] if fwd_seeds is None else fwd_seeds\n        new_rev = current['rev'] if rev_seeds is None else rev_seeds\n        self._set_seeds(new_fwd, new_rev)\n        try:\n            yield\n        finally:\n            old_fwd, old_rev, old_active = saved\n            self._set_seeds(old_fwd, old_rev)\n", 'C24.ctx'),
+    Mutant('arrays-alias-default-crossed', REL, _SEEDS_OLD, "        if self._active is False:  # if already inactive from higher level, don't change anything\n            yield\n            return\n\n        current = self._seed_vars\n        saved = (current['fwd'], current['rev'], self._active)\n        self._active = True\n        new_fwd = current['fwd'] if fwd_seeds is None else fwd_seeds\n        new_rev = current['fwd'] if rev_seeds is None else rev_seeds\n        self._set_seeds(new_fwd, new_rev)\n        try:\n            yield\n        finally:\n            old_fwd, old_rev, old_active = saved\n            self._set_seeds(old_fwd, old_rev)\n            self._active = old_active\n", 'C24.arrays'),
     Twin('twin-gate-local-flag', GROUP, "            with relevance.active(self._linear_solver.use_relevance()):\n                subs = list(",
          "            prune = self._linear_solver.use_relevance()\n            with relevance.active(prune):\n                subs = list("),
 )
